@@ -192,7 +192,8 @@ def check_real(r: dict, expected: dict) -> list[str]:
 def run(chk: common.Check) -> None:
     chk.cov.rule = ('write sequences (key|None, text): all sequences up to a fixed length over 6 text fragments × 3 keys, then seeded '
                     'random unicode/long ones, executed on the real peek_stdout_by_key and on the Lean model (replies compared '
-                    'line by line); plus generated scripts printing from main thread/threads/asyncio tasks through the real child. '
+                    'line by line); plus generated scripts printing from main thread/threads/asyncio tasks through the real child, and 3–6 threads '
+                    'writing partial lines at the same time under a 1 µs thread-switch interval through the real trace machinery in-process. '
                     'Non-trivial: at least one piece was reported; distinct = distinct write sequence.')
     chk.assumptions += ['which trace number is current at a write (the key) is model D1 / property C06',
                         '“writes to standard output” = sys.stdout.write and what is built on it (print, writelines)']
@@ -260,6 +261,24 @@ def run(chk: common.Check) -> None:
                                 {'stdout': (r['rec'] or {}).get('stdout'), 'real_stdout': r['real_stdout']}))
     if real:
         chk.cov.sample({'real_child_script': specs[0]['statement'], 'reported': (real[0]['rec'] or {}).get('stdout')})
+
+    # several threads inside the stdout hook at the same time (lines assembled from partial writes), 1 µs thread-switch interval,
+    # through the real trace machinery in-process: what each thread wrote vs what was reported for its trace
+    from . import _trace
+    sspecs = _trace.stress_specs(chk, 8 if chk.tier == 'quick' else 60)
+    for r in _trace.run_specs(sspecs, chunk=4):
+        sp = r['spec']
+        if 'harness_error' in r:
+            if not r['harness_error'].startswith('SKIPPED'):
+                oracle_fail.append(({'script': sp['source'], 'policy': sp['policy']}, [f'the traced run did not complete: {r["harness_error"][:200]}'], None))
+            continue
+        chk.cov.case(('stress', sp['source'], repr(sp['policy'])))
+        chk.cov.count('kinds', 'threads-writing-concurrently')
+        msgs = _trace.captured_oracle(r['traced'])
+        if r['traced'].get('error'):
+            msgs.append(f'spawned.run raised: {r["traced"]["error"]}')
+        if msgs:
+            oracle_fail.append(({'script': sp['source'], 'policy': sp['policy'], 'switchinterval': sp['switchinterval']}, msgs, None))
 
     for ws, msgs, out in oracle_fail[:5]:
         chk.violation(f'C13 oracle: {msgs[0]}', {'input': ws, 'oracle_messages': msgs, 'implementation': out})
